@@ -261,6 +261,20 @@ def run_case(case, ctx):
             ctx.op()
             ctx.check("C12.droplet", eq(fv.volume, x0) and np.array_equal(fv.position, pos) and fv.dim == d, {"from_volume": fv.volume, "want": x0})
             ctx.check("C12.droplet", eq(fv.radius, float(sp.radius_from_volume(x0, d))), {"from_volume.radius": fv.radius})
+            # the way the droplet object came to be must not matter for the setter
+            import copy
+            import pickle
+
+            for how in ("pickle", "deepcopy", "copy"):
+                base_d = cls(pos, 1.0)
+                drop3 = {"pickle": lambda: pickle.loads(pickle.dumps(base_d)), "deepcopy": lambda: copy.deepcopy(base_d), "copy": lambda: base_d.copy()}[how]()
+                try:
+                    drop3.volume = x0
+                    got3 = drop3.volume
+                    ctx.op(2)
+                except Exception as e:  # noqa
+                    got3 = repr(e)
+                ctx.check("C12.setter", not isinstance(got3, str) and eq(got3, x0) and eq(base_d.radius, 1.0), {"provenance": how, "set": x0, "get": got3, "original_radius": base_d.radius})
             for r_start in (1.0, 0.0, 3.7e-9):
                 for via_zero in (False, True):
                     drop2 = cls(pos, r_start)
